@@ -192,7 +192,7 @@ def ascii_width_case(args):
 
 
 # ------------------------------------------------------------------------------------------------------------------
-def _roundtrip(op4, tmp, names, mats, forms, binary, endian, sparse, digits, readmodes):
+def _roundtrip(op4, tmp, names, mats, forms, binary, endian, sparse, digits, readmodes, want_forms=None, ref=None):
     fn = os.path.join(tmp, "t.op4")
     op4.write(fn, names, mats, binary=binary, digits=digits, endian=endian, sparse=sparse, forms=forms)
     problems = []
@@ -206,6 +206,8 @@ def _roundtrip(op4, tmp, names, mats, forms, binary, endian, sparse, digits, rea
         for k, (m0, m1) in enumerate(zip(mats, gm)):
             import scipy.sparse as sps
             a0 = m0.toarray() if sps.issparse(m0) else np.asarray(m0)
+            if ref is not None:
+                a0 = np.asarray(ref[k])          # the mathematical matrix the (possibly non-canonical) sparse input represents
             a1 = m1.toarray() if sps.issparse(m1) else np.asarray(m1)
             if a0.ndim == 1:
                 a0 = a0.reshape(1, -1)
@@ -223,6 +225,10 @@ def _roundtrip(op4, tmp, names, mats, forms, binary, endian, sparse, digits, rea
                 problems.append("type of %s: %s" % (names[k], gt[k]))
             if forms is not None and forms[k] is not None and gf[k] != forms[k]:
                 problems.append("form of %s: %s vs %s" % (names[k], gf[k], forms[k]))
+            if want_forms is not None and gf[k] != want_forms[k]:
+                problems.append("form of %s read back as %s, expected %s (read mode %s)" % (names[k], gf[k], want_forms[k], rm))
+            if want_forms is not None and len(listing) > 2 and list(listing[2])[k] != want_forms[k]:
+                problems.append("dir() reports form %s for %s, expected %s" % (list(listing[2])[k], names[k], want_forms[k]))
         if list(listing[0]) != list(gn) or [tuple(x) for x in listing[1]] != [tuple((m.shape if np.ndim(m) == 2 else (1, np.size(m)))) for m in mats]:
             problems.append("dir() listing differs from what load returns: %s %s" % (listing[0], listing[1]))
     return problems
@@ -284,6 +290,55 @@ def bounded_roundtrips(seed, quick):
                         if pr:
                             return ev, dict(what="op4 write -> read is not the identity", binary=binary, endian=endian, sparse=sparse, complex=cplx, input_sparse=input_sparse,
                                             problems=pr[:4], shapes=[list(np.shape(m)) for m in mats])
+        # SciPy sparse inputs in every storage form (duplicate (row, col) entries that must be summed, explicit zeros, unsorted indices, coo/csr/csc/lil) and
+        # structured matrices; with no form given the form read back must be the documented default (6 square symmetric, 1 square, 2 rectangular)
+        def variants(M):
+            r_, c_ = np.nonzero(M)
+            v_ = M[r_, c_]
+            out = [("ndarray", M), ("coo", sps.coo_matrix(M)), ("csr", sps.csr_matrix(M)), ("csc", sps.csc_matrix(M)), ("lil", sps.lil_matrix(M))]
+            if len(v_):
+                # FE-style assembly: every entry split into two or three overlapping contributions (exact binary fractions, so the sum is exact)
+                parts = [(r_, c_, v_ * 0.25), (r_, c_, v_ * 0.5), (r_[::2], c_[::2], v_[::2] * 0.25), (r_[1::2], c_[1::2], v_[1::2] * 0.25)]
+                rr, cc, vv = (np.concatenate([q[i] for q in parts]) for i in range(3))
+                pm = rng.permutation(len(vv))
+                out.append(("coo with duplicates", sps.coo_matrix((vv[pm], (rr[pm], cc[pm])), shape=M.shape)))
+                # csr from raw arrays with a repeated column index and an explicitly stored zero, indices not sorted
+                data, indices, indptr = [], [], [0]
+                for i in range(M.shape[0]):
+                    js = list(np.nonzero(M[i])[0])[::-1]
+                    for j in js:
+                        data += [M[i, j] * 0.5, M[i, j] * 0.5]
+                        indices += [j, j]
+                    free = [j for j in range(M.shape[1]) if M[i, j] == 0]
+                    if free:
+                        data.append(0.0)
+                        indices.append(free[0])
+                    indptr.append(len(data))
+                out.append(("csr raw with duplicates, explicit zeros, unsorted", sps.csr_matrix((np.array(data, dtype=M.dtype), np.array(indices, dtype=np.int32), np.array(indptr, dtype=np.int32)), shape=M.shape)))
+            return out
+        n_ = 5
+        B0 = np.round(rng.randn(n_, n_) * 8) / 4 * (rng.rand(n_, n_) < 0.7)
+        B0[0, n_ - 1] = 1.75; B0[n_ - 1, 0] = -2.5; B0[1, 2] = 3.0; B0[2, 1] = 0.0
+        structured = [("general", B0, 1), ("symmetric", B0 + B0.T, 6), ("upper triangular", np.triu(B0), 1), ("strictly upper", np.triu(B0, 1), 1), ("lower triangular", np.tril(B0), 1),
+                      ("diagonal", np.diag(np.arange(1.0, n_ + 1)), 6), ("diagonal + one upper term", np.diag(np.arange(1.0, n_ + 1)) + np.eye(n_, k=2) * (np.arange(n_) == 1)[:, None], 1),
+                      ("all zero square", np.zeros((3, 3)), 6), ("rectangular", B0[:, :3], 2), ("complex symmetric", (B0 + B0.T) + 1j * (B0 * B0.T), 6),
+                      ("complex, hermitian but not symmetric", (B0 + B0.T) + 1j * (B0 - B0.T), 1)]
+        for label, M, wantform in structured:
+            for vname, minput in variants(M):
+                for binary, endian, sparse in combos:
+                    if quick and endian == ">":
+                        continue
+                    for explicit in (None, 1 if M.shape[0] == M.shape[1] else 2):
+                        ev += 1
+                        with warnings.catch_warnings():
+                            warnings.simplefilter("ignore")
+                            try:
+                                pr = _roundtrip(op4, tmp, ["st"], [minput], None if explicit is None else [explicit], binary, endian, sparse, 16, (False, True, None), want_forms=[wantform if explicit is None else explicit], ref=[M])
+                            except Exception as ex:
+                                tb = traceback.extract_tb(ex.__traceback__)
+                                pr = ["exception %r at %s:%s" % (ex, tb[-1].filename, tb[-1].lineno)]
+                        if pr:
+                            return ev, dict(what="op4 write -> read is not the identity (%s matrix given as %s)" % (label, vname), binary=binary, endian=endian, sparse=sparse, form_given=explicit, problems=pr[:4])
         # repeated names through the list interface
         fn = os.path.join(tmp, "rep.op4")
         A, B = np.arange(6.0).reshape(2, 3), np.eye(2)
@@ -402,7 +457,7 @@ def run(tier, seed):
             run.known_finding(known[key], wit()["fails"])
     ev, cf = bounded_roundtrips(seed, tier == "quick")
     run.bounded.append(dict(name="float: real op4.write -> load/dir over binary x endian x layout x real/complex x ndarray/scipy-sparse input x read mode (dense/sparse/auto), several matrices per "
-                                 "file, magnitudes to 1e+-308, empty rows/columns/all-zero, repeated names; 65535/65536 rows; runs >= 3000 values in both byte orders",
+                                 "file, magnitudes to 1e+-308, empty rows/columns/all-zero, repeated names; SciPy inputs in coo/csr/csc/lil form incl. duplicate entries, explicit zeros and unsorted indices; default form (6/1/2) of structured matrices; 65535/65536 rows; runs >= 3000 values in both byte orders",
                             evaluations=ev, failures=0 if cf is None else 1, label="bounded (never counted as proved)"))
     failed = [v for v in run.verdicts if v.status == "failed"]
     if failed:
